@@ -44,6 +44,9 @@ func NewBarrier(count int, f func(msgTs uint64, b *Barrier), u func(vchannel str
 		for current < barrier.Dest {
 			select {
 			case <-barrier.CloseChan:
+				// the barrier is abandoned (the collection is stopped), without the return the closed
+				// chan is always ready and the loop spins
+				return
 			case signal := <-barrier.BarrierSignalChan:
 				if u != nil {
 					u(signal.VChannel, signal.Msg)
